@@ -292,7 +292,7 @@ type advFrame struct {
 }
 
 // Adv walks with Iter.Advance, Root, Array/Object, Array.Iter and
-// Object.NextElementBytes.
+// Object.NextElementBytes / NextElement (alternating).
 func Adv(pj *simdjson.ParsedJson) (roots []*ref.Value, err error) {
 	err = Guard(func() error {
 		it := pj.Iter()
@@ -411,7 +411,16 @@ func advValue(it *simdjson.Iter, t simdjson.Type, steps *int, bound int) (*ref.V
 		top := &stack[len(stack)-1]
 		if top.isObj {
 			var elem simdjson.Iter
-			name, et, err := top.obj.NextElementBytes(&elem)
+			var name []byte
+			var et simdjson.Type
+			var err error
+			if *steps&1 == 0 {
+				name, et, err = top.obj.NextElementBytes(&elem)
+			} else {
+				var sname string
+				sname, et, err = top.obj.NextElement(&elem)
+				name = []byte(sname)
+			}
 			if err != nil {
 				return nil, err
 			}
@@ -454,7 +463,12 @@ func advValue(it *simdjson.Iter, t simdjson.Type, steps *int, bound int) (*ref.V
 // and AdvanceIter. It recurses by nesting depth; callers bound the depth.
 func IterCB(pj *simdjson.ParsedJson) (roots []*ref.Value, err error) {
 	err = Guard(func() error {
+		calls := 0
 		return pj.ForEach(func(i simdjson.Iter) error {
+			// one callback per root: more callbacks than tape entries means ForEach is cycling
+			if calls++; calls > len(pj.Tape)+2 {
+				return ErrSteps
+			}
 			v, err := iterValue(&i, i.Type(), 0)
 			if err != nil {
 				return err
